@@ -137,6 +137,14 @@ func (s c01Spec) ops(w *model.World) (out []opx) {
 			out = append(out, txnOp(w, []model.Act{{Op: "put", Off: r, W: []model.Write{s.write(v, false)}}}, false))
 		}
 	}
+	// the untyped writers: Row.SetAny and Row.SetMany (one-key map)
+	if !isKey && s.kind != "expire" && len(rows) > 0 {
+		for _, v := range vals {
+			out = append(out, txnOp(w, []model.Act{{Op: "put", Off: rows[0], W: []model.Write{{Col: "v", V: v, Via: "any"}}}}, false))
+		}
+		out = append(out, txnOp(w, []model.Act{{Op: "put", Off: rows[0], W: []model.Write{{Col: "v", V: vals[0], Via: "many"}}}}, false))
+		out = append(out, txnOp(w, []model.Act{{Op: "insert", W: []model.Write{o1, {Col: "v", V: vals[len(vals)-1], Via: "any"}}}}, false))
+	}
 	// merges
 	if k.Mergeable {
 		for i, r := range rows {
